@@ -152,6 +152,170 @@ let parse_rope_obs kvs : ChkRope.rope_obs =
         | [c; b] -> (text_of_hex c, b = "1") | _ -> failwith "ew") (split_list (get kvs "ew"));
     ro_hash = L.map text_of_hex (split_list (get kvs "hash")) }
 
+
+(* ---------- source trees ---------- *)
+let hexlist_of (l : coq_N list list) : string = list_str hex_of_text l
+let hexlist_parse (s : string) : coq_N list list = L.map text_of_hex (split_list s)
+
+let parse_smap (toks : string list) : Prelude.smap * string list =
+  match toks with
+  | "M" :: mp :: srcs :: cts :: nms :: file :: root :: dbg :: rest ->
+    ({ Prelude.sm_file = opt_of_hex file; sm_mappings = text_of_hex mp; sm_sources = hexlist_parse srcs;
+       sm_contents = hexlist_parse cts; sm_names = hexlist_parse nms; sm_root = opt_of_hex root;
+       sm_debug = opt_of_hex dbg }, rest)
+  | _ -> failwith "smap"
+
+let rec parse_src (toks : string list) : Types.src * string list =
+  match toks with
+  | "raws" :: h :: r -> (Types.SRaw (false, text_of_hex h), r)
+  | "rawb" :: h :: r -> (Types.SRaw (true, text_of_hex h), r)
+  | "rstr" :: h :: r -> (Types.SRawString (text_of_hex h), r)
+  | "rbuf" :: h :: r -> (Types.SRawBuffer (text_of_hex h), r)
+  | "orig" :: h :: n :: r -> (Types.SOriginal (text_of_hex h, text_of_hex n), r)
+  | ("sms" | "usr") :: v :: n :: r ->
+    let (m, r1) = parse_smap r in
+    (match r1 with
+     | o :: r2 ->
+       let (inner, r3) = (match r2 with "-" :: r3 -> (None, r3) | _ -> let (im, r3) = parse_smap r2 in (Some im, r3)) in
+       (match r3 with
+        | rm :: r4 -> (Types.SMapped (text_of_hex v, text_of_hex n, m, opt_of_hex o, inner, rm = "1"), r4)
+        | [] -> failwith "sms remove")
+     | [] -> failwith "sms orig")
+  | ("concat" | "concata") :: n :: r ->
+    let rec go k r acc = if k = 0 then (L.rev acc, r) else
+        match r with
+        | "t" :: r1 -> let (c, r2) = parse_src r1 in
+          (match c with Types.SConcat cs -> go (k - 1) r2 (Tree.ITyped cs :: acc) | _ -> failwith "typed item must be a concat")
+        | "b" :: r1 -> let (c, r2) = parse_src r1 in go (k - 1) r2 (Tree.IBoxed c :: acc)
+        | _ -> failwith "concat item" in
+    let (items, r') = go (int_of_string n) r [] in (Tree.concat_new items, r')
+  | "repl" :: r ->
+    let (inner, r1) = parse_src r in
+    (match r1 with
+     | n :: r2 ->
+       let rec go k r acc = if k = 0 then (L.rev acc, r) else
+           match r with
+           | st :: en :: c :: nm :: enf :: r' ->
+             go (k - 1) r' ({ Types.r_start = n_of_string st; r_end = n_of_string en; r_content = text_of_hex c;
+                              r_name = opt_of_hex nm; r_enforce = n_of_string enf } :: acc)
+           | _ -> failwith "repl item" in
+       let (rs, r3) = go (int_of_string n) r2 [] in (Types.SReplace (inner, rs), r3)
+     | [] -> failwith "repl")
+  | "cached" :: id :: r -> let (inner, r1) = parse_src r in (Types.SCached (n_of_string id, inner), r1)
+  | k :: _ -> failwith ("src kind " ^ k)
+  | [] -> failwith "src"
+
+let parse_wop (s : string) : ApiTree.wop =
+  match s with
+  | "m1" -> ApiTree.WMap true | "m0" -> ApiTree.WMap false
+  | "s10" -> ApiTree.WStream (true, false) | "s00" -> ApiTree.WStream (false, false)
+  | "s11" -> ApiTree.WStream (true, true) | "s01" -> ApiTree.WStream (false, true)
+  | _ -> failwith ("wop " ^ s)
+
+let parse_warm (toks : string list) : (coq_N * ApiTree.wop) list * string list =
+  match toks with
+  | n :: r ->
+    let rec go k r acc = if k = 0 then (L.rev acc, r) else
+        match r with id :: op :: r' -> go (k - 1) r' ((n_of_string id, parse_wop op) :: acc) | _ -> failwith "warm" in
+    go (int_of_string n) r []
+  | [] -> ([], [])
+
+let string_of_event (e : Types.event) : string =
+  match e with
+  | Types.EChunk (t, m) -> "C:" ^ opt_hex t ^ ":" ^ string_of_mapping m
+  | Types.ESource (i, n, c) -> "S:" ^ string_of_n i ^ ":" ^ hex_of_text n ^ ":" ^ opt_hex c
+  | Types.EName (i, n) -> "N:" ^ string_of_n i ^ ":" ^ hex_of_text n
+let string_of_events (evs : Types.event list) : string =
+  if evs = [] then "_" else S.concat "|" (L.map string_of_event evs)
+let event_of_string (s : string) : Types.event =
+  match S.split_on_char ':' s with
+  | ["C"; t; gl; gc; si; ol; oc; ni] -> Types.EChunk (opt_of_hex t, mapping_of_fields gl gc si ol oc ni)
+  | ["S"; i; n; c] -> Types.ESource (n_of_string i, text_of_hex n, opt_of_hex c)
+  | ["N"; i; n] -> Types.EName (n_of_string i, text_of_hex n)
+  | _ -> failwith ("event " ^ s)
+let events_of_string (s : string) : Types.event list =
+  if s = "_" then [] else L.map event_of_string (S.split_on_char '|' s)
+
+let string_of_smap (m : Prelude.smap) : string =
+  S.concat ";" [hex_of_text m.Prelude.sm_mappings; hexlist_of m.Prelude.sm_sources; hexlist_of m.Prelude.sm_contents;
+                hexlist_of m.Prelude.sm_names; opt_hex m.Prelude.sm_file; opt_hex m.Prelude.sm_root; opt_hex m.Prelude.sm_debug]
+let string_of_optmap (m : Prelude.smap option) : string =
+  match m with None -> "-" | Some m -> string_of_smap m
+let optmap_of_string (s : string) : Prelude.smap option =
+  if s = "-" then None else
+  match S.split_on_char ';' s with
+  | [mp; srcs; cts; nms; file; root; dbg] ->
+    Some { Prelude.sm_file = opt_of_hex file; sm_mappings = text_of_hex mp; sm_sources = hexlist_parse srcs;
+           sm_contents = hexlist_parse cts; sm_names = hexlist_parse nms; sm_root = opt_of_hex root;
+           sm_debug = opt_of_hex dbg }
+  | _ -> failwith "optmap"
+
+let gi_str (g : coq_N * coq_N) = string_of_n (fst g) ^ ":" ^ string_of_n (snd g)
+
+let print_tree_obs (o : ApiTree.tree_obs) : string =
+  let open ApiTree in
+  let streams = match o.to_streams with
+    | [a; b; c; d] ->
+      Printf.sprintf "e10=%s g10=%s e00=%s g00=%s e11=%s g11=%s e01=%s g01=%s"
+        (string_of_events (fst a)) (gi_str (snd a)) (string_of_events (fst b)) (gi_str (snd b))
+        (string_of_events (fst c)) (gi_str (snd c)) (string_of_events (fst d)) (gi_str (snd d))
+    | _ -> failwith "streams" in
+  let maps = match o.to_maps with
+    | [a; b] -> Printf.sprintf "m1=%s m0=%s" (string_of_optmap a) (string_of_optmap b)
+    | _ -> failwith "maps" in
+  Printf.sprintf "src=%s buf=%s size=%s rope=%s wr=%s %s %s"
+    (hex_of_text o.to_source) (hex_of_text o.to_buffer) (string_of_n o.to_size) (opt_hex o.to_rope)
+    (hexlist_of (L.filter (fun t -> t <> []) o.to_writer)) streams maps
+
+let parse_gi (s : string) : coq_N * coq_N =
+  match S.split_on_char ':' s with
+  | [a; b] -> (n_of_string a, n_of_string b)
+  | _ -> failwith ("gi " ^ s)
+
+let has_panic kvs =
+  L.exists (fun (_, v) -> S.length v >= 5 && S.sub v 0 5 = "PANIC") kvs
+
+let parse_tree_obs kvs : ApiTree.tree_obs =
+  let st tag = (events_of_string (get kvs ("e" ^ tag)), parse_gi (get kvs ("g" ^ tag))) in
+  { ApiTree.to_source = text_of_hex (get kvs "src"); to_buffer = text_of_hex (get kvs "buf");
+    to_size = n_of_string (get kvs "size"); to_rope = opt_of_hex (get kvs "rope");
+    to_writer = hexlist_parse (get kvs "wr");
+    to_streams = [st "10"; st "00"; st "11"; st "01"];
+    to_maps = [optmap_of_string (get kvs "m1"); optmap_of_string (get kvs "m0")] }
+
+let parse_tree_case (rest : string list) =
+  let (s, r1) = parse_src rest in
+  let (ws, _) = parse_warm r1 in
+  (s, ws)
+
+
+(* ---------- ReplaceSource histories (C05) ---------- *)
+let parse_rhist (toks : string list) : Types.src * ReplaceObj.rcall list =
+  let (inner, r) = parse_src toks in
+  match r with
+  | n :: r1 ->
+    let rec go k r acc = if k = 0 then L.rev acc else
+        match r with
+        | "mut" :: st :: en :: c :: nm :: enf :: r' ->
+          go (k - 1) r' (ReplaceObj.RMutate { Types.r_start = n_of_string st; r_end = n_of_string en;
+                                              r_content = text_of_hex c; r_name = opt_of_hex nm;
+                                              r_enforce = n_of_string enf } :: acc)
+        | "obs" :: kk :: r' -> go (k - 1) r' (ReplaceObj.RObserve (n_of_string kk) :: acc)
+        | "clone" :: r' -> go (k - 1) r' (ReplaceObj.RClone :: acc)
+        | _ -> failwith "rhist op" in
+    (inner, go (int_of_string n) r1 [])
+  | [] -> failwith "rhist"
+
+let string_of_rout (o : ChkReplace.rout) : string =
+  match o with
+  | ChkReplace.ONone -> "-"
+  | ChkReplace.OText t -> hex_of_text t
+  | ChkReplace.OSize n -> "n" ^ string_of_n n
+let rout_of_string (s : string) : ChkReplace.rout =
+  if s = "-" then ChkReplace.ONone
+  else if s.[0] = 'n' then ChkReplace.OSize (n_of_string (S.sub s 1 (S.length s - 1)))
+  else ChkReplace.OText (text_of_hex s)
+
 (* ---------- per-kind handlers ---------- *)
 let model_case (toks : string list) : string =
   match toks with
@@ -169,6 +333,12 @@ let model_case (toks : string list) : string =
     (match ApiRope.api_rope p q with
      | None -> "ok=0"
      | Some ((o, ((sw, eq), eqs)), wf) -> print_rope_obs o sw eq eqs ^ (if wf then "" else " WF=0"))
+  | "tree" :: rest ->
+    let (s, ws) = parse_tree_case rest in
+    print_tree_obs (ApiTree.api_tree s ws)
+  | "rhist" :: rest ->
+    let (inner, h) = parse_rhist rest in
+    "outs=" ^ list_str string_of_rout (ApiCheck.api_rhist inner h)
   | k :: _ -> failwith ("unknown case kind " ^ k)
   | [] -> failwith "empty case"
 
@@ -177,9 +347,12 @@ let verdict (n : coq_N) : string =
   match int_of_n n with
   | 0 -> "OK"
   | 100 -> "SKIP"
+  | k when k >= 51 && k <= 59 -> Printf.sprintf "FAIL clause=%d KF=K%d" k (k - 50)
   | k -> Printf.sprintf "FAIL clause=%d" k
 
-let check_case (toks : string list) (kvs : (string * string) list) : string =
+let prop_num (prop : string) : coq_N = n_of_int (int_of_string (S.sub prop 1 (S.length prop - 1)))
+
+let check_case (prop : string) (toks : string list) (kvs : (string * string) list) : string =
   if L.mem_assoc "PANIC" kvs then "FAIL clause=panic"
   else if L.mem_assoc "ABORT" kvs then "FAIL clause=abort"
   else if L.mem_assoc "HANG" kvs then "FAIL clause=hang" else
@@ -201,6 +374,16 @@ let check_case (toks : string list) (kvs : (string * string) list) : string =
     else
       verdict (ApiRope.api_rope_check p q (parse_rope_obs kvs) (get kvs "sw" = "1") (get kvs "eq" = "1")
                  (get kvs "eqs" = "1"))
+  | "rhist" :: rest ->
+    let (inner, h) = parse_rhist rest in
+    verdict (ApiCheck.api_check_rhist inner h (L.map rout_of_string (split_list (get kvs "outs"))))
+  | "tree" :: rest ->
+    let (s, ws) = parse_tree_case rest in
+    if has_panic kvs then
+      (* a panic is a failure unless the case is outside the property's domain *)
+      (if int_of_n (ApiCheck.api_check_tree (prop_num prop) s ws (ApiTree.api_tree s ws)) = 100
+       then "SKIP" else "FAIL clause=panic")
+    else verdict (ApiCheck.api_check_tree (prop_num prop) s ws (parse_tree_obs kvs))
   | k :: _ -> failwith ("unknown case kind " ^ k)
   | [] -> failwith "empty case"
 
@@ -228,7 +411,7 @@ let () =
             | Stack_overflow -> "MODELERR=stack_overflow" in
           print_string id; print_char ' '; print_endline out
         end) (read_lines cases)
-  | _ :: "check" :: cases :: implout :: _ ->
+  | _ :: "check" :: prop :: cases :: implout :: _ ->
     let obs = Hashtbl.create 1024 in
     L.iter (fun l -> if l <> "" then begin
         let (id, kvs) = parse_obs l in Hashtbl.replace obs id kvs end) (read_lines implout);
@@ -239,8 +422,8 @@ let () =
             match Hashtbl.find_opt obs id with
             | None -> "FAIL clause=missing-observation"
             | Some kvs ->
-              (try check_case toks kvs with
+              (try check_case prop toks kvs with
                | Failure m -> "FAIL clause=driver:" ^ S.map (fun c -> if c = ' ' then '_' else c) m) in
           print_string id; print_char ' '; print_endline out
         end) (read_lines cases)
-  | _ -> prerr_endline "usage: driver (model <cases> | check <cases> <impl.out>)"; exit 2
+  | _ -> prerr_endline "usage: driver (model <cases> | check <prop> <cases> <impl.out>)"; exit 2
